@@ -122,6 +122,43 @@ impl RFsmExpressionDatamodel {
         r
     }
 
+    /// W3C 4.6: \<foreach\> declares 'item' (and 'index') if they are not defined yet. Variables that exist
+    /// keep their value (an empty collection changes nothing); a read-only one is not a legal location:
+    /// error.execution, the \<foreach\> is not executed.
+    fn declare_foreach_variables(&mut self, item_name: &str, index: &str) -> bool {
+        for name in [item_name, index] {
+            if name.is_empty() {
+                continue;
+            }
+            let is_identifier = name.chars().all(|c| c.is_alphanumeric() || c == '_' || c == '$');
+            if !is_identifier {
+                // Some other location expression: it must be assignable.
+                if !self.assign_internal(&str_to_source(name), &Data::Null(), true) {
+                    return false;
+                }
+                continue;
+            }
+            let existing = self.global_data.lock().unwrap().data.get(name);
+            match existing {
+                Some(value) => {
+                    if value.is_readonly() {
+                        self.log(format!("Can't use read-only '{}' in <foreach>.", name).as_str());
+                        self.internal_error_execution();
+                        return false;
+                    }
+                }
+                None => {
+                    self.global_data
+                        .lock()
+                        .unwrap()
+                        .data
+                        .set_undefined(name.to_string(), Data::Null());
+                }
+            }
+        }
+        true
+    }
+
     fn execute_internal_source(&mut self, source: &SourceCode, handle_error: bool) -> Result<DataArc, String> {
         let parser_result = self.compile(source);
         match parser_result {
@@ -610,12 +647,18 @@ impl Datamodel for RFsmExpressionDatamodel {
                 match dc {
                     Data::Map(map) => {
                         let mut idx: i64 = 0;
-                        if self.assign_internal(&str_to_source(item_name), &Data::Null(), true) {
+                        if !self.declare_foreach_variables(item_name, index) {
+                            // (error.execution is placed: the rest of the enclosing block is not executed)
+                            return false;
+                        }
+                        {
                             #[allow(unused_variables)]
                             for (name, item_value) in map {
                                 #[cfg(feature = "Debug")]
                                 debug!("ForEach: #{} {} {}={}", idx, name, item_name, item_value);
-                                self.set_arc(item_name, item_value.clone(), true);
+                                // (a copy, see below)
+                                let item_copy = item_value.lock().unwrap().clone();
+                                self.set(item_name, item_copy, true);
                                 if !index.is_empty() {
                                     self.set(index, Data::Integer(idx), true);
                                 }
@@ -628,11 +671,18 @@ impl Datamodel for RFsmExpressionDatamodel {
                     }
                     Data::Array(array) => {
                         let mut idx: i64 = 0;
-                        if self.assign_internal(&str_to_source(item_name), &Data::Null(), true) {
+                        if !self.declare_foreach_variables(item_name, index) {
+                            return false;
+                        }
+                        {
                             for data in array {
                                 #[cfg(feature = "Debug")]
                                 debug!("ForEach: #{} {:?}", idx, data);
-                                self.set_arc(item_name, data.clone(), true);
+                                // The item variable gets a copy of the element: bound to the element itself,
+                                // an assignment to the item (or the next <foreach> with this item) would
+                                // write into the array.
+                                let item_copy = data.lock().unwrap().clone();
+                                self.set(item_name, item_copy, true);
                                 if !index.is_empty() {
                                     self.set(index, Data::Integer(idx), true);
                                 }
